@@ -1,3 +1,7 @@
 import Mimic.Control
 import Mimic.Framing
+import Mimic.Cursor
+import Mimic.Wire
+import Mimic.Results
+import Mimic.ResultsTables
 import Mimic.Drv
